@@ -25,6 +25,9 @@ claimed = {
  "C13": dict(level="exploration", technique="property-based testing (rapid): grammar-generated well-formed inputrc programs vs an independent reference evaluator (differential); rapid.MakeFuzz under go test -fuzz in the thorough tier",
    text="Well-formed programs from a grammar are evaluated both by the parser and by a small independent reference evaluator of the same AST; Binds and Vars must agree in both directions (nothing missing, nothing extra). Exploration with a complete oracle for the generated fragment of the language.",
    note="Only the documented notation is generated; sequences compared modulo Meta-x == ESC x. One known finding (nested $if leak) is recognised by its exact mechanism and reported as KNOWN-FINDING.", ref="DESIGN.md §3 C13"),
+ "C16": dict(level="exploration", technique="property-based testing (rapid): generated buffers x cursor positions x kill commands by name x numeric arguments x kill sequences through real pty sessions; algebraic oracle kill;yank = id and register == removed range",
+   text="Every kill command is reached by name on a private key sequence, one command per read so each intermediate buffer and the kill register are observed through the public API; oracle: one contiguous range removed, register equals it, immediate yank restores, most recent kill is what yank inserts.",
+   note=RIG_NOTE + " One known finding (word kills on multi-byte text) excluded by construction and reported from a regress case.", ref="DESIGN.md §3 C16"),
  "C19": dict(level="exploration", technique="property-based testing (rapid) + bounded-exhaustive enumeration: Unescape(Escape(s)) round trip over all single runes 0x00-0xFF, all default bindings, significant triples and random sequences; native fuzzing in the thorough tier",
    text="Round-trip oracle Unescape(Escape(s)) == s and Unescape(EscapeMacro(s)) == s, exhaustive for length 1 over 0x00-0xFF, for every sequence bound in a default shell and for triples of notation-significant runes, random beyond; plus agreement of Unescape with an independent decoder of the documented notation.",
    note="Codec part of the property (pure API). The dump-commands part is checked through the terminal rig once registered (see DESIGN.md).", ref="DESIGN.md §3 C19"),
